@@ -56,6 +56,12 @@ class QueryBuilder:
                         kwargs[fc["f"]] = val
                 with symbolic_mode():
                     self.vars[key] = cls(self.from_for(v, dom), *args, **kwargs)
+            elif decl == "subdom":    # the domain is itself a query over a variable of its own
+                inner = let(type_=cls, domain=dom)
+                self.vars[key] = inner
+                with symbolic_mode():
+                    sub = an(entity(inner, self.cond(v["domc"])))
+                self.vars[key] = let(type_=cls, domain=sub)
             elif decl == "iter":      # one-shot iterator supplied by the case runner
                 self.vars[key] = let(type_=cls, domain=v["_iterator"])
             else:
